@@ -245,9 +245,21 @@ func offered(r *evid.Run, dir string, cs int64) {
 		if len(txs) == 0 {
 			continue
 		}
+		// what must be offered is what the harness ledger knows to be published
+		// and still unconfirmed -- not merely what the wallet still remembers
 		want := map[chainhash.Hash]bool{}
-		for _, t := range txs {
+		for _, t := range f.Pending {
 			want[t.TxHash()] = true
+		}
+		have := map[chainhash.Hash]bool{}
+		for _, t := range txs {
+			have[t.TxHash()] = true
+		}
+		for h := range want {
+			if !have[h] {
+				fail("c14:unconfirmed-tx-missing-from-the-list", fmt.Sprintf("pass %d: transaction %v was published, accepted and is still unconfirmed, but is not in the wallet's list of unconfirmed transactions (%d listed, %d expected)", pass, h, len(have), len(want)))
+				return
+			}
 		}
 		policy := rg.Intn(3) // 0 accept all, 1 reject the first offered, 2 reject a random one
 		rejectAt := 1
